@@ -5359,6 +5359,13 @@ class FlowIRConcrete(object):
             )
             platform_stage_blueprint = self.get_platform_stage_blueprint(stage_index, platform)
 
+            # VV: The global blueprint of the platform has a higher priority than the stage blueprint of the default
+            # platform. The instance has a single platform (default): its stage blueprints would otherwise hide the
+            # values of the platform's global blueprint, which is folded into the default global one
+            if platform != FlowIR.LabelDefault:
+                global_stage_blueprint = FlowIR.override_object(
+                    global_stage_blueprint, self.get_platform_blueprint(platform))
+
             stage_blueprint = FlowIR.override_object(global_stage_blueprint, platform_stage_blueprint)
 
             context = global_variables.copy()
